@@ -289,7 +289,9 @@ def search(ctx):
         libcst = [i for i in ids if i not in semgrep_ids]
         sg = [i for i in ids if i in semgrep_ids]
         rng.shuffle(libcst); rng.shuffle(sg)
-        ids = sorted(libcst[:14] + sg[:3])
+        # codemods with a filter path of their own (unused-imports has its own line filter) take part in every run
+        must = [i for i in ("pixee:python/unused-imports", "pixee:python/order-imports", "pixee:python/use-generator") if i in ids]
+        ids = sorted(set(libcst[:14] + sg[:3] + must))
     cases = []
     for cid in ids:
         pool = seeds[cid]
